@@ -36,6 +36,8 @@ package ice
 //@ owner C10 ice.CandidatePair.state loop
 //@ owner C10 ice.CandidatePair.nominated loop
 //@ owner C10 ice.CandidatePair.nominateOnBindingSuccess loop
+//@ owner C10 ice.CandidatePair.iceRoleControlling loop
+//@ owner C10 ice.controllingSelector.agent loop
 
 // Constructors: the object is not shared yet.
 //@ ownerinit ice.Agent in createAgentBase, newAgentFromConfig, newAgentWithConfig, WithLocalCredentials, WithUrls
